@@ -3,6 +3,7 @@ import Req.C02.RespSM
 import Req.C02.Call
 import Req.C02.H1Body
 import Req.C02.H1Msg
+import Req.C02.H1Full
 import Req.C02.H3Recv
 import Req.C02.H2Recv
 /-! Driver lanes of C02. -/
@@ -154,6 +155,22 @@ def laneH1Msg : List String → String
     | _, _, _ => "bad-op"
   | _ => "bad-op"
 
+/-- `c02h1full <head 0|1> <fin> <cap> <segs> <readsize>` → view of the caller, through C04's
+head reader + the C02 body automata (the reader of `h1_response_roundtrip_*`). A head the
+byte-exact reader refuses is `error:head`. -/
+def laneH1Full : List String → String
+  | [hd, fin, cap, segs, k] =>
+    match hd.toList, parseNetEnd fin, cap.toNat?, decodeList segs, k.toNat? with
+    | [c], some fin, some cap, some segs, some k =>
+      match parseBool01 c with
+      | none => "bad-op"
+      | some isHead =>
+        match h1ReceiveView isHead cap segs fin k with
+        | .ok v => viewStr v
+        | .error _ => "error:head"
+    | _, _, _, _, _ => "bad-op"
+  | _ => "bad-op"
+
 def h3ErrStr : Option H3Err → String
   | none => "ok"
   | some .eof => "eof" | some .reset => "reset" | some .unexpectedEOF => "unexpectedEOF"
@@ -295,6 +312,7 @@ def lanes : List (String × (List String → String)) := [
   ("c02h2recv", laneH2Recv),
   ("c02h3recv", laneH3Recv),
   ("c02h1msg", laneH1Msg),
+  ("c02h1full", laneH1Full),
   ("c02h1body", laneH1Body)
 ]
 
